@@ -1,5 +1,5 @@
 """C20 Introspection reports the true number of links and counts every message."""
-from mirlib import AnchorMissing, describe_call, describe_operand, guards, _suffix_match
+from mirlib import AnchorMissing, describe_call, describe_operand, dom_guards, guards, _suffix_match
 from rules.common import named_argument_rule, aggregates, callers_by_name, calls_on_field, owner_def, where
 
 META = {
@@ -283,6 +283,17 @@ def run(ctx):
                 m = dict(zip(fl, ops))
                 r.check(m.get("link_count", "").endswith("link_count") and m.get("event_count", "").endswith("event_count") and m.get("command_count", "").endswith("command_count"),
                         "make_pulse/fields", mp.loc(line), "pulse fields are copied from the snapshot's fields of the same name", "make_pulse mixes up snapshot fields: %s" % m)
+
+    with ctx.rule("C20.R8", "T1", "a link is only ever recorded for a remote that is attached", floor=1) as r:
+        he = ctx.saw(rt.fn(name="handle_event", self_adt="task::WriteTaskState"))
+        ins = [c for c in he.calls if c.is_method("links::Links", "insert")]
+        if len(ins) != 1:
+            raise AnchorMissing("handle_event: links.insert")
+        rem = describe_operand(he, ins[0].args[2])
+        g = dom_guards(he, ins[0].block)
+        r.check(any(d.startswith("has_remote(") and rem in d and l == "true" for d, l, _ in g), "handle_event/implicit-link-only-for-attached-remote", ins[0].loc(), "links.insert under remote_tracker.has_remote(remote) == true",
+                "the implicit link of handle_event is not guarded by has_remote: a response for a removed remote is counted as a link for ever")
+
 
     with ctx.rule("C20.R7", "T5", "named arguments are passed in their parameters' positions (no two flags or ids change places at a call site)", floor=3) as r:
         named_argument_rule(ctx, r, [("swimos_runtime", "swimos_runtime::agent::reporting"), ("swimos_runtime", "swimos_runtime::agent::task::links"), ("swimos_introspection", "swimos_introspection::")], allow={("saturating_add", "n"): "commutative helper", ("add_descendant", "node"): "receiver"})
